@@ -29,11 +29,12 @@ def gen_config(rng, tier):
     return {'cycles': rng.randrange(1, 4) if tier == 'quick' else rng.randrange(1, 6),
             'flavours': rng.sample(FLAVOURS, rng.randrange(1, 5)),
             'compress': rng.choice([0.0, 0.3, 0.6]),
+            'big': 0.04 if rng.random() < 0.25 else 0.0,
             'clock': rng.choice(['steady', 'jumpy']),
             'max_steps': 200}
 
 
-def gen_spec(rng, fmt='NETCDF4'):
+def gen_spec(rng, fmt='NETCDF4', big=0.0):
     """a source file inside the C07 envelope (classic flavours: the unlimited
     dimension, if any, is the leading one)"""
     nd = rng.randrange(0, 5)
@@ -84,13 +85,26 @@ def gen_spec(rng, fmt='NETCDF4'):
             v['mask'] = sorted(set(rng.randrange(n) for _ in range(rng.randrange(0, 4))))
             v['fillkind'] = rng.choice(['fill_value', 'missing_value'])
             if dt in ('f4', 'f8'):
-                v['fill'] = rng.choice([-999.0, -9999.0, 1e20, 9.96921e36, -1.5])
+                v['fill'] = rng.choice([-999.0, -9999.0, 1e20, 9.96921e36, -1.5, 0.0])
             elif dt == 'i1':
-                v['fill'] = rng.choice([-99, -128, 127])
+                v['fill'] = rng.choice([-99, -128, 127, 0])
             elif dt == 'i2':
-                v['fill'] = rng.choice([-999, -32768, 9999])
+                v['fill'] = rng.choice([-999, -32768, 9999, 0])
             else:
-                v['fill'] = rng.choice([-999, -2147483647, 99999])
+                v['fill'] = rng.choice([-999, -2147483647, 99999, 0])
+        vars_.append(v)
+    if rng.random() < big:
+        # one large variable (a little over 2**21 values, leading length not a
+        # round number): chunked/slab code paths only run on sizes like this
+        lead = rng.choice([301, 257, 523])
+        dims.append(['bigrec', lead, False])
+        dims.append(['bigcol', 7001, False])
+        v = {'name': 'BIG', 'dt': rng.choice(['f4', 'f4', 'i2']), 'dims': ['bigrec', 'bigcol'],
+             'base': 5.0, 'attrs': {}}
+        if rng.random() < 0.5:
+            v['mask'] = [3, 7001 * (lead - 1) + 5]
+            v['fillkind'] = 'fill_value'
+            v['fill'] = -999.0 if v['dt'] == 'f4' else -999
         vars_.append(v)
     # an unlimited dimension has the length of the records written into it:
     # representable only if some variable uses it
@@ -242,7 +256,7 @@ def gen_op(rng, st):
                                {'op': 'collect'}]))
     fmt = rng.choice(c['flavours'])
     cl = rng.choice([1, 4, 9]) if rng.random() < c['compress'] else 0
-    ops.append({'op': 'save', 'cid': cid, 'spec': gen_spec(rng, fmt), 'fmt': fmt,
+    ops.append({'op': 'save', 'cid': cid, 'spec': gen_spec(rng, fmt, c.get('big', 0.0)), 'fmt': fmt,
                 'complevel': cl, 'file': 's%d.nc' % cid})
     ops.append({'op': 'read', 'cid': cid, 'which': 'ack',
                 'how': rng.choice(['explicit', 'explicit', 'auto'])})
